@@ -339,7 +339,9 @@ theorem stepCmd_inv (sc : Scripts) {w : World} (cmd : Cmd) (hw : Inv w.c) : Inv 
   | top op =>
     simp only [stepCmd]
     have := exec_inv sc topFuel (.ops 1 none [op]) w hw
-    split <;> exact this
+    split
+    · exact hw
+    · split <;> exact this
   | snap => exact hw
   | probe => exact probe_inv hw
   | gc => exact gc_inv hw
